@@ -1,37 +1,19 @@
-"""Per-property job definitions for the runner. One entry per claimed property."""
+"""Loads per-property definitions from runner/propdefs/cNN.py (each defines PROP)."""
+import glob
+import importlib.util
+import os
+import sys
+
+HERE = os.path.dirname(os.path.abspath(__file__))
+sys.path.insert(0, HERE)
 
 PROPS = {}
-
-
-def job(name, module, pkg, pkgname, files, run, expect, race=False, **kw):
-    d = {"name": name, "module": module, "pkg": pkg, "pkgname": pkgname, "files": files,
-         "run": run, "expect": expect, "race": race}
-    d.update(kw)
-    return d
-
-
-PROPS["C05"] = {
-    "level": "exploration",
-    "jobs": [
-        job("frag", "core", "./internal/frag/", "frag",
-            ["harness/core/internal/frag/c05_test.go"], "^TestVerifC05",
-            ["frag-split", "frag-reassemble", "frag-interleave"], race=False,
-            timeout_quick=600, timeout_thorough=3600),
-    ],
-    "min_events": 1000,
-    "rule": ("split: boundary grid over (payload size, address length, datagram limit) incl. limit<=header, "
-             "255/256/257 fragments, last fragment of 1 byte, plus PRNG points; each split message is sent "
-             "through Serialize->ParseUDPMessage and reassembled in order, reversed and in a random order with "
-             "duplicates. reassemble: all permutations (each also with a duplicate) for 2..5 fragments, random "
-             "orders with duplicates and one-fragment-dropped runs for 6..255 fragments. interleave: 2..4 "
-             "messages with distinct packet IDs, shuffled / locally swapped / round-robin arrival with drops "
-             "and duplicates into one Defragger. A case is non-trivial when the message was actually split "
-             "(>=2 fragments); distinct = distinct (sizes, arrival order)."),
-    "assumptions": [
-        "concurrent messages carry distinct packet IDs (precondition stated by the property)",
-        "Serialize/ParseUDPMessage are the wire path between splitter and reassembler",
-    ],
-}
+for path in sorted(glob.glob(os.path.join(HERE, "propdefs", "c[0-9]*.py"))):
+    pid = os.path.basename(path)[:-3].upper()
+    spec = importlib.util.spec_from_file_location("propdef_" + pid, path)
+    mod = importlib.util.module_from_spec(spec)
+    spec.loader.exec_module(mod)
+    PROPS[pid] = mod.PROP
 
 # properties not claimed (yet), with the reason shown in MANIFEST.not_applicable
 NOT_CLAIMED = {}
